@@ -84,6 +84,17 @@ type (
 	}
 )
 
+// Validate implements custom validation for Policy
+func (p Policy) Validate() error {
+	// the limiter divides by the refresh period.
+	if p.LimitRefreshPeriod != "" {
+		if d, err := time.ParseDuration(p.LimitRefreshPeriod); err == nil && d <= 0 {
+			return fmt.Errorf("limitRefreshPeriod of policy '%s' must be positive", p.Name)
+		}
+	}
+	return nil
+}
+
 // Validate implements custom validation for Spec
 func (spec Spec) Validate() error {
 URLLoop:
